@@ -15,7 +15,7 @@ import os
 import sys
 
 from ..core import env, par, repair, result, shrink
-from ..core.result import Failure, Report
+from ..core.result import Failure, Report, robust
 from ..ref import cscan
 
 ID = "C05"
@@ -535,7 +535,7 @@ def explore_s(maxlen, which="real", depth_cap=12):
 
 # ------------------------------------------------------------------ entry points
 def _mk(tv):
-    return mk_failure(*tv)
+    return robust(mk_failure, {"text": tv[0], "via": tv[1]}, *tv)
 
 
 def run(tier):
